@@ -128,12 +128,7 @@ def tcpRoundTrip (impl : String) : P Verdict := do
          kf := [], tag := "tcp/" ++ tcpTag s, model := model, spec := s!"<text read back by refTcp> {want}" }
 
 /-- canonical numerals: no digit run starts with `0` unless it is `0` itself -/
-def nlz (prevDigit : Bool) : Str → Bool
-  | [] => true
-  | c :: cs =>
-    (if c == '0' && !prevDigit then match cs with | d :: _ => !d.isDigit | [] => true else true) &&
-    nlz c.isDigit cs
-def noLeadingZeros (t : Str) : Bool := nlz false t
+def noLeadingZeros (t : Str) : Bool := canonNumsB false t
 
 /-- `C06.ptcp <text>` — `tcp::Signature::from_str` on arbitrary text, then `to_string`.
 impl: `ok <sig> <hex reprint>` | `err`.  Spec: accepted iff `refTcp` reads it, with the same value; a
